@@ -1,14 +1,16 @@
 #!/usr/bin/env python3
 """Re-runs the checks against every kept seeded change (seeded/*/patch.diff)
 in scratch worktrees and reports which are detected. Results are written to
-sensitivity/seed_recheck.json. Usage: tools/rerun_seeds.py [seed-name ...]"""
+sensitivity/seed_recheck.json. With VERIF_SEED=N the checks run with that seed and the results go to
+sensitivity/seed_recheck_sN.json. Usage: tools/rerun_seeds.py [seed-name ...]"""
 import glob, json, os, shutil, subprocess, sys
 ROOT = os.path.dirname(os.path.dirname(os.path.abspath(__file__)))
 ENV = "export GOFLAGS=-mod=mod GOPROXY=off GOSUMDB=off GOTOOLCHAIN=local; "
 def sh(cmd, cwd=None):
     r = subprocess.run(ENV + cmd, shell=True, cwd=cwd, stdout=subprocess.PIPE, stderr=subprocess.STDOUT, text=True)
     return r.returncode, r.stdout
-out_path = os.path.join(ROOT, "sensitivity", "seed_recheck.json")
+SEED = os.environ.get("VERIF_SEED", "0")
+out_path = os.path.join(ROOT, "sensitivity", "seed_recheck.json" if SEED == "0" else "seed_recheck_s%s.json" % SEED)
 res = json.load(open(out_path)) if os.path.exists(out_path) else {}
 only = set(sys.argv[1:])
 for d in sorted(glob.glob(os.path.join(ROOT, "seeded", "seed*"))):
